@@ -10,7 +10,7 @@ CONSTANTS
   ListenerValues <- NoValues
   OutValues <- ValuesRoutes
   OutKinds <- KindsRoutes
-  MCScopes <- ScopesTwo
+  MCScopes <- ScopesTop
   MCRoutes <- RoutesSix
   MCExits <- Both
   Emitting = TRUE
